@@ -244,13 +244,28 @@ def run_original(d, regmap, memmap, inputs):
     sim = pyrtl.Simulation(tracer=pyrtl.SimulationTrace(block=block), register_value_map=dict(regmap),
                            memory_value_map={m: dict(c) for m, c in memmap.items()}, block=block)
     trace = []
+    allw = sorted(block.wirevector_set, key=lambda w: w.name)
+    full = []
     for stp in inputs:
         sim.step(dict(stp))
         trace.append([sim.inspect(o.name) for o in d.outputs])
-    return trace
+        full.append({w.name: sim.value[w] for w in allw})
+    return trace, full
 
 
-def run_post(d, post, merge, regmap, memmap, inputs, mem_by_id_workaround=False):
+def synth_bit_wire(post, w, i, merge):
+    """the 1-bit wire of the synthesized block that carries bit i of original wire w"""
+    if isinstance(w, (pyrtl.Input, pyrtl.Output)):
+        if merge:
+            name = 'tmp_%s_synth_%d' % (w.name, i)
+        else:
+            name = w.name if len(w) == 1 else '%s[%d]' % (w.name, i)
+    else:
+        name = '%s_synth_%d' % (w.name, i)
+    return post.wirevector_by_name.get(name)
+
+
+def run_post(d, post, merge, regmap, memmap, inputs, mem_by_id_workaround=False, bits_of=None):
     """the same testbench on the synthesized block"""
     rmap = {}
     for r, v in regmap.items():
@@ -277,7 +292,19 @@ def run_post(d, post, merge, regmap, memmap, inputs, mem_by_id_workaround=False)
     for stp in inputs:
         sim.step(step_inputs(post, d.inputs, stp, merge))
         trace.append([read_output(sim, post, o, merge) for o in d.outputs])
+        if bits_of is not None:
+            bits_of.append({w.name: [sim.value[b] if b is not None else None for b in bws]
+                            for w, bws in bits_of_wires(post, d.block, merge)})
     return trace
+
+
+def bits_of_wires(post, block, merge):
+    cache = getattr(post, '_verif_bits', None)
+    if cache is None:
+        cache = [(w, [synth_bit_wire(post, w, i, merge) for i in range(len(w))])
+                 for w in sorted(block.wirevector_set, key=lambda w: w.name)]
+        post._verif_bits = cache
+    return cache
 
 
 def full_regmap(d, regmap):
@@ -409,7 +436,7 @@ def part_b(ctx):
                     'resets': {r.name: r.reset_value for r in d.regs},
                     'memmap': {m.name: c for m, c in memmap.items()}}
         try:
-            t_orig = run_original(d, regmap, memmap, inputs)
+            t_orig, full_orig = run_original(d, regmap, memmap, inputs)
         except pyrtl.PyrtlError as e:
             ctx.spec_violation('api-built-design-rejected', 'Simulation rejected an API-built design: %s' % e, base_rep)
             continue
@@ -419,8 +446,9 @@ def part_b(ctx):
         orig_expr = '%s 0 %s %s %s' % (dump.coq(), dump.regmap(regmap), dump.memmap(memmap), dump.inputs(inputs))
         spec_exprs.append('spec_case %s []' % orig_expr)
         spec_cases.append(dict(i=i, out_cols=out_cols, t_orig=t_orig, outnames=outnames, rep=base_rep))
-        model_exprs.append('synth_case %s %s' % (orig_expr, nlx.zlist([dump.wid[o] for o in d.outputs])))
-        model_cases.append(dict(i=i, t_orig=t_orig, outnames=outnames, rep=base_rep, t_post=None))
+        # the model is asked for EVERY wire of the original design (re-assembled from the model's bits)
+        model_exprs.append('synth_case %s %s' % (orig_expr, nlx.zlist([dump.wid[w] for w in dump.wires])))
+        model_cases.append(dict(i=i, t_orig=t_orig, outnames=names, rep=base_rep, t_post=None))
         for o in d.ops:
             ctx.count('design_ops', o)
         ctx.count('design_registers', len(d.regs))
@@ -463,8 +491,9 @@ def part_b(ctx):
             maps_ok = check_maps(ctx, d, post, merge, rep)
             # ---- the same testbench on the synthesized block
             t_post = None
+            bits = []
             try:
-                t_post = run_post(d, post, merge, regmap, memmap, inputs)
+                t_post = run_post(d, post, merge, regmap, memmap, inputs, bits_of=bits)
             except KeyError as e:
                 if memmap:
                     ctx.spec_violation('synthesize:mem_map-not-keyed-by-original',
@@ -488,10 +517,32 @@ def part_b(ctx):
             ctx.case(('b', i, merge, uwb, tuple(map(tuple, t_orig))), nontrivial=nontrivial, sample=sample)
             if t_post is None:
                 continue
-            if merge and uwb:
-                model_cases[-1]['t_post'] = t_post
+            if merge and uwb and len(bits) == len(inputs) and all(
+                    b is not None for bm in bits for bl in bm.values() for b in bl):
+                # every wire of the real synthesized block, re-assembled from its 1-bit wires
+                model_cases[-1]['t_post'] = [[sum(b << k for k, b in enumerate(bm[nm])) for nm in names]
+                                             for bm in bits]
             if t_post != t_orig:
                 classify_mismatch(ctx, d, block, merge, regmap, memmap, inputs, t_orig, t_post, outnames, rep)
+            elif len(bits) == len(full_orig):
+                # the invariant value(w) = sum_i bit(w_i) 2^i on EVERY wire of the original design, every cycle
+                bad = None
+                for c, (vals, bmap) in enumerate(zip(full_orig, bits)):
+                    for nm, bl in bmap.items():
+                        if any(b is None for b in bl):
+                            bad = (c, nm, 'no synthesized bit wire found', None)
+                            break
+                        got = sum(b << k for k, b in enumerate(bl))
+                        if got != vals[nm]:
+                            bad = (c, nm, vals[nm], got)
+                            break
+                    if bad:
+                        break
+                ctx.count('bit_invariant_wires_checked', 'wires', len(full_orig[0]) if full_orig else 0)
+                if bad:
+                    ctx.spec_violation('synthesize:bit-invariant',
+                                       'wire %s of the original design is not spelled by its synthesized bits at cycle %d: '
+                                       'expected %s, bits give %s' % (bad[1], bad[0], bad[2], bad[3]), rep)
 
     # ---- reference semantics on the original dump (the oracle)
     spec_results = ctx.coq_eval(spec_exprs, IMPORTS_SPEC, tag='c03spec', shard=6, jobs=12)
